@@ -296,7 +296,16 @@ let run_history (type u) (out : Buffer.t) (ek : bytes ekind) (m : (bytes, u) uma
           st := st';
           prev := print_views out ek m !st !s !prev
       | Ok (r, s') ->
-          Buffer.add_string out (Printf.sprintf "R %d %s\n" (idx + 1) (pres r));
+          (* `ssz_enc` also reports the static half of Encode (is_ssz_fixed_len / ssz_fixed_len of the type) *)
+          let extra = match r, String.split_on_char ' ' line with
+            | RBytes _, ["ssz_enc"; a] ->
+                (match List.nth_opt s'.regs (int_of_nat (reg a)) with
+                 | Some (Some h) ->
+                     Printf.sprintf "|f=%d:%s" (if coll_is_ssz_fixed ek h.hlist then 1 else 0)
+                       (dec_of_n (coll_ssz_fixed_len ek h.hlist capn))
+                 | _ -> "")
+            | _ -> "" in
+          Buffer.add_string out (Printf.sprintf "R %d %s%s\n" (idx + 1) (pres r) extra);
           st := st'; s := s';
           prev := print_views out ek m !st !s !prev) ops
   with Exit -> ());
